@@ -46,9 +46,12 @@ SCOPES = {
     'S8': dict(names='pqjb', occs=[(1, 1), (0, 1), (0, None)], max_leaves=2, canon_swap=False),
     # S9: a head with block="substitution" and its would-be member (no competition between the two)
     'S9': dict(names='hib', occs=[(1, 1), (0, 1), (0, None)], max_leaves=2, canon_swap=False),
+    # S10: the head a next to a reference to its abstract member n, whose own member k has another type (EDC looks at
+    # the members of both)
+    'S10': dict(names='anb', occs=[(1, 1), (0, 1), (0, None)], max_leaves=2, canon_swap=False),
 }
 ONLY_11 = {'S8'}
-QUICK_FRACTION = {'S1': 0.04, 'S2': 0.25, 'S3': 1.0, 'S5': 1.0, 'S6': 0.1, 'S7': 0.1, 'S8': 0.15, 'S9': 1.0}
+QUICK_FRACTION = {'S1': 0.04, 'S2': 0.25, 'S3': 1.0, 'S5': 1.0, 'S6': 0.1, 'S7': 0.1, 'S8': 0.15, 'S9': 1.0, 'S10': 1.0}
 # S6: models with prohibited particles (minOccurs = maxOccurs = 0): a fixed sample of the <= 3-leaf scope
 S6_OCCS = [(1, 1), (0, 1), (0, 0), (1, None), (2, 3)]
 S6_SEED, S6_SIZE = 20260926, 12000
